@@ -442,3 +442,10 @@ PROPS["C04"]["stages"].append(dict(name="log-damage", driver="corrupt", flavour=
                                    thorough=["--cfgs", "B1;B1,reuse=1", "--dbs", "4"]))
 PROPS["C04"]["rule"] += ("; log-damage stage: every byte of every write-ahead log of 4 generated databases (one holding a batch whose record spans three blocks) x {bit flips, 00, FF, truncation, zeroed sector, "
                          "zeroes to the end of the block}, recovery with paranoid_checks 1 and 0: the contents are the fold of whole batches")
+
+# C01 under LEGAL short transfers: no call fails, one read(2)/write(2) moves fewer bytes than asked for
+PROPS["C01"]["stages"].append(dict(name="short-transfers", driver="fault", flavour="asan", args=["--prop", "C01"], weight=0.3,
+                                   quick=["--cfgs", "B1;B1,mmap=0", "--len", "2", "--scripted", "1"],
+                                   thorough=["--cfgs", "B1;B1,mmap=0;B1,mmap=0,snappy=1,bloom=1", "--len", "3", "--scripted", "1", "--wide", "1"]))
+PROPS["C01"]["rule"] += ("; short-transfer stage: for every read(2) and write(2) of every history (<= 2 -> 3 operations + scripted ones incl. reopen) one call transfers only 1, half or all-but-one of the bytes "
+                         "asked for and NOTHING fails: every operation returns OK, every get returns the model value, and after close/kill + reopen every write is there")
